@@ -102,6 +102,6 @@ impl Area for FallArea {
             stats.seen(&[line.clone()], out == "err");
             outs.push(out);
         }
-        ExecOut { outs, fails }
+        ExecOut { outs, fails, model_lines: None }
     }
 }
